@@ -80,3 +80,27 @@ _add('C13',
      'K1: observed runs with reneging, baulking tables, priorities, pre-emption, schedules and capacities.',
      'Open finding F-02c (pre-empted customer keeps a reneging date that has passed) is reported as KNOWN-FINDING. The uniform draw is compared '
      'exactly (numerator over 2^53).')
+_add('C17',
+     'Tracker.v + T1 C17_sound (Coq, induction over traces of any length): on every accepted trace the hash_state of the tracker equals, after every '
+     'event, the TRUE state that the Gallina function true_state computes from raw configuration facts (who queues where, class, blocked flag, '
+     'destination; for MatrixBlocking the ghost global blocking order maintained from Block/Unblock events, shown to list exactly the blocked '
+     'customers once each), hence no count is negative (true_state_nonneg); the history is exactly (0, initial state) followed by the frames whose '
+     'state differs from the frame before, each stamped with its event time (changes_filter), so consecutive entries differ and timestamps are '
+     'non-decreasing. state_probabilities_spec (Coq, over Q): for a history with non-decreasing timestamps and a finite window 0 <= a < b with no '
+     'timestamp equal to b, the statement-by-statement model returns for every state its exact share of the time in [max a t0, b], summing to 1. '
+     'K1: all seven trackers on every feature region, every frame; differential of the real state_probabilities against the extracted model and an '
+     'independent exact computation on synthetic and recorded Fraction histories.',
+     'Outside the guard the full statement is FALSE of the faithful model and of the implementation (state_probabilities_refuted_*: window end = inf '
+     'credits the final state with the previous interval; a timestamp equal to the window end drops that interval or divides by zero) -- F-17b, a '
+     'candidate finding replayed on the real code in every run and reported in the evidence, not claimed as proved. Open findings F-02a/F-02b/F-02c '
+     '(pre-emption of a blocked customer; clock running backwards) are reported as KNOWN-FINDING. A blocked customer that has already drawn its '
+     'class change counts under the class it was served in.',
+     technique='Coq theorems about an executable acceptor and a hand-written model of state_probabilities over Q; conformance of real traces and '
+               'differential testing against the real function on exact rationals')
+_add('C03',
+     'T1 C03_sound (Coq, induction over event lists of any length): on every accepted run each visit of a customer begins at the node named as '
+     'destination by its previous visit-closing record (its arrival node for the first visit) at the instant that record ended; the exit is '
+     'reached only through a record naming it (destination -1, baulk, rejection, renege to the exit); every record lies at the node and carries '
+     'the arrival date of the visit in progress; visits and service/renege/reroute records are in bijection; baulk/rejection records are the only '
+     'record; nobody is in flight between events; the true final location equals the end of the recorded journey. K1: observed runs on all regions '
+     '(blocking, pre-emption, reroute, reneging, schedules, slotted, PS).')
